@@ -12,13 +12,16 @@ CONSTANT Variant   \* "model" (filters of the reference: exact output predicted)
 Evil == "<b a='1'&!c=\"2\">"
 MCData == { << <<<<"x", Str(Evil)>>, <<"p", Str("%3Cb%3E%26%22")>>, <<"e", Str("&lt;b&gt;&amp;")>>,
                  <<"arr", Arr(<<Str(Evil), Str("ok"), Str("<i>")>>)>>, <<"h", Hash(<< <<"k", Str(Evil)>> >>)>>,
-                 <<"hs", Arr(<<Hash(<< <<"k", Str("<u>")>> >>), Hash(<< <<"k", Str("&v")>> >>)>>)>>, <<"n", IntV(3)>>>>,
+                 <<"hs", Arr(<<Hash(<< <<"k", Str("<u>")>> >>), Hash(<< <<"k", Str("&v")>> >>)>>)>>, <<"n", IntV(3)>>,
+                 \* one significant character each, on its own
+                 <<"q", Str("it's")>>, <<"dq", Str("say \"x\"")>>, <<"lt", Str("a<b")>>, <<"gt", Str("a>b")>>, <<"amp", Str("a&!b")>>>>,
                <<>>, <<>>, <<>> >> }
 MCCfgs == {Cfg("+", TRUE, TRUE, "default")}
 MCPartials == << <<"p", <<NText("[p:"), NOut(P(V("v"))), NOut(P(V("x"))), NText("]")>>>> >>
 
 X == V("x")
-Srcs == {X, V("p"), V("e"), VP("h", "k"), Path(<<Key("arr"), Idx(0)>>)}
+Singles == {V("q"), V("dq"), V("lt"), V("gt"), V("amp")}
+Srcs == {X, V("p"), V("e"), VP("h", "k"), Path(<<Key("arr"), Idx(0)>>)} \cup Singles
 ModelF0 == {"upcase", "downcase", "capitalize", "strip", "lstrip", "rstrip", "escape", "strip_newlines", "newline_to_br", "size", "first", "last"}
 ModelF1 == {"append", "prepend", "replace", "remove", "split", "default", "truncate"}
 AllF0 == ModelF0 \cup {"escape_once", "strip_html", "url_encode", "url_decode", "base64_encode", "base64_decode", "json", "reverse",
@@ -32,6 +35,7 @@ Args == {X, S("lit"), V("e"), I(2)}
 Chains1 == {<<Fl(f, <<>>)>> : f \in F0} \cup {<<Fl(f, <<a>>)>> : f \in F1, a \in Args}
 Chains2 == {c1 \o c2 : c1 \in Chains1, c2 \in {<<Fl(f, <<>>)>> : f \in F0} \cup {<<Fl(f, <<X>>)>> : f \in F1}}
 Exprs == {F(s, c) : s \in Srcs, c \in Chains1} \cup {F(X, c) : c \in Chains2} \cup {F(V("p"), c) : c \in Chains2}
+         \cup {P(s) : s \in Srcs} \cup {P(ArrLit(<<s, S("-"), s>>)) : s \in Singles} \cup {P(TStr(<<S("a"), P(s)>>, "'")) : s \in Singles}
          \cup {F(V("arr"), <<Fl("join", <<a>>)>>) : a \in {X, S("-"), V("e")}} \cup {F(V("arr"), <<Fl("join", <<>>)>>), P(V("arr")), P(V("h"))}
          \cup {F(V("arr"), <<Fl("join", <<X>>), Fl(f, <<>>)>>) : f \in F0}
          \cup {F(V("hs"), <<Fl("map", <<S("k")>>), Fl("join", <<a>>)>>) : a \in {X, S(",")}}
